@@ -50,12 +50,12 @@ def run(tier, seed, model_ok=True):
     if binary is None:
         res.corr_failures.append({"relation": "harness builds against /repo", "what": err[-800:], "case": None})
         return res
-    K.run_cases(res, binary, cases(tier, seed), WANT, extra=extra if model_ok else None)
+    K.run_cases(res, binary, cases(tier, seed), WANT, extra=extra if model_ok else None, log_bytes=-1)
     if res.oracle_failures:
-        res.oracle_failures[0] = K.shrink(binary, res.oracle_failures[0], WANT)
+        res.oracle_failures[0] = K.shrink(binary, res.oracle_failures[0], WANT, log_bytes=-1)
     return res
 
 
 def replay(data):
     binary, err = C.build_harness("traffic")
-    return K.replay_case(binary, data, WANT, extra)
+    return K.replay_case(binary, data, WANT, extra, log_bytes=-1)
